@@ -2,6 +2,7 @@ package checks
 
 import (
 	"encoding/json"
+	"fmt"
 	"sort"
 
 	"verifrt"
@@ -60,4 +61,11 @@ func hasFeature(meta map[string]any, f string) bool {
 		}
 	}
 	return false
+}
+
+func caseTitle(meta map[string]any) string {
+	if i, ok := meta["interface"].(string); ok {
+		return i
+	}
+	return fmt.Sprintf("%v → %v %v", meta["source"], meta["target"], meta["converter_lines"])
 }
